@@ -163,11 +163,16 @@ fn match_place(single: &Arc<Single>, is_job_activity: bool, activity_ctx: &Activ
             is_same_location && is_proper_time && is_same_tag
         })
         .map(|(idx, place)| {
-            // NOTE search for the latest occurrence assuming that times are sorted
+            // NOTE prefer the time span the service starts in: an activity can reach into the next one because of its duration;
+            // otherwise search for the latest occurrence assuming that times are sorted
+            let service_start = activity_ctx.time.end - place.duration;
             let time = place
                 .times
                 .iter()
-                .rfind(|time| time.intersects(activity_ctx.route_start_time, &activity_ctx.time))
+                .find(|time| time.to_time_window(activity_ctx.route_start_time).contains(service_start))
+                .or_else(|| {
+                    place.times.iter().rfind(|time| time.intersects(activity_ctx.route_start_time, &activity_ctx.time))
+                })
                 .unwrap();
 
             let time = match time {
